@@ -1,6 +1,6 @@
 (* C13 proofs, part 5: model_meets_spec.  For EVERY case the SPEC checker run on the model's own observation
-   reports nothing but the open findings (F15 alternatives, the EventId{id} crash F29); it reports nothing at all
-   when the caller never overwrites a buffer and no nameless EventId is used. *)
+   reports nothing but the open finding F15 (its alternatives); it reports nothing at all when the caller never
+   overwrites a buffer.  (F29, the EventId{id} crash, is repaired in /repo: be9979e.) *)
 From V Require Import C13.Spec C13.Glue C13.ProofsBase C13.ProofsFields C13.ProofsPrint C13.ProofsSim C10.ProofsCtx.
 From Coq Require Import Lia.
 Local Open Scope nat_scope.
@@ -80,68 +80,26 @@ Proof.
   - intro S. rewrite Q1 by assumption. reflexivity.
 Qed.
 
-(* ------------------------------------------------------------------ crashes come from EventId{id} only *)
-Lemma step_crash : forall c st o, lstep c st o = Crash -> has_nameless o = true.
-Proof.
-  intros c st o E. destruct o; cbn [lstep] in E; cbn [has_nameless].
-  - destruct (Nat.ltb t nthreads && sval_ok c v); discriminate.
-  - destruct (Nat.ltb t nthreads); discriminate.
-  - destruct (Nat.ltb t nthreads); discriminate.
-  - destruct (nth_error (s_toks st) k) as [[[tt cx] [|]]|]; discriminate.
-  - destruct (Nat.ltb t nthreads && Nat.ltb l (length (c_loggers c))); discriminate.
-  - destruct (negb (arg_ok (s_mem st) a)); [discriminate|].
-    destruct (nth_error (s_slots st) r) as [[| |ch]|]; try discriminate; destruct (arg_crashes a); try discriminate; reflexivity.
-  - destruct (negb _); [discriminate|]. destruct (nth_error (s_slots st) r) as [sl|]; [|discriminate].
-    destruct (negb (logger_enabled c l)); [discriminate|]. destruct sl; discriminate.
-  - destruct (Nat.ltb t nthreads && Nat.ltb l (length (c_loggers c))); discriminate.
-  - destruct (negb _); [discriminate|]. unfold emit_variadic, emit_with_args in E.
-    destruct (logger_enabled c l); destruct (existsb arg_crashes args); try discriminate; reflexivity.
-  - destruct (negb _); [discriminate|]. destruct (nth_error (s_slots st) r) as [sl|]; [|discriminate].
-    unfold emit_with_args in E. destruct sl; try discriminate;
-      destruct (existsb arg_crashes args); try reflexivity; destruct (logger_enabled c l); discriminate.
-  - destruct (log_args form sev id name msg kvs) as [args|] eqn:LA; [|discriminate].
-    destruct (negb _); [discriminate|]. unfold emit_variadic, emit_with_args in E.
-    assert (X : existsb arg_crashes args = true) by (destruct (logger_enabled c l); destruct (existsb arg_crashes args); try discriminate; reflexivity).
-    destruct form as [|[|[|[|?]]]]; cbn in LA; inversion LA; subst; cbn in X; try discriminate. reflexivity.
-  - destruct (negb _); [discriminate|]. unfold emit_variadic, emit_with_args in E.
-    assert (X : existsb arg_crashes (ASev sev :: args) = true) by (destruct (logger_enabled c l); destruct (existsb arg_crashes (ASev sev :: args)); try discriminate; reflexivity).
-    exact X.
-  - destruct (nth_error (s_mem st) a) as [old|]; [|discriminate]. destruct (same_shape (s_mem st) old b); discriminate.
-  - discriminate.
-  - destruct (nth_error (c_loggers c) l) as [[[[? ?] ?] ?]|]; discriminate.
-Qed.
+(* ------------------------------------------------------------------ the finding the checker may report on the model *)
+Definition is_known (t : tok) : bool := is_f15 t.
 
-Lemma run_crash : forall c ops st, lrun c st ops = Crash -> existsb has_nameless ops = true.
-Proof.
-  induction ops as [|o ops IH]; intros st E; cbn [lrun] in E; [discriminate|]. cbn [existsb].
-  destruct (lstep c st o) as [st1| |] eqn:S; try discriminate.
-  - rewrite (IH st1 E). apply orb_true_r.
-  - rewrite (step_crash c st o S). reflexivity.
-Qed.
-
-(* ------------------------------------------------------------------ the findings the checker may report on the model *)
-Definition crash_tag : tok := tag "log_fields_as_supplied:event_id_without_name_crash".
-Definition is_known (t : tok) : bool := is_f15 t || tok_eqb t crash_tag.
-
-Lemma single_tag_end : forall l, single_tag "ILL" (l ++ [tag "E"]) = false /\ single_tag "CRASH" (l ++ [tag "E"]) = false.
-Proof. intros [|a [|b l]]; split; reflexivity. Qed.
+Lemma single_tag_end : forall l, single_tag "ILL" (l ++ [tag "E"]) = false.
+Proof. intros [|a [|b l]]; reflexivity. Qed.
 
 Theorem model_meets_spec_modulo_known : forall k t, In t (check_case k (run_case k)) -> is_known t = true.
 Proof.
   intros k t Hin. unfold run_case in Hin.
   destruct (negb (mem_ok (k_mem k))); [cbn in Hin; contradiction|].
-  destruct (lrun (k_cfg k) (lstate0 (k_mem k) (k_procs k)) (k_ops k)) as [st| |] eqn:E.
+  destruct (lrun (k_cfg k) (lstate0 (k_mem k) (k_procs k)) (k_ops k)) as [st|] eqn:E.
   - destruct (run_sim _ _ _ _ _ (R_init (k_mem k) (k_procs k)) E) as [d [x [O [X RR]]]].
     cbn [lstate0 s_out app] in O. rewrite O in Hin.
     unfold check_case in Hin. unfold dump in Hin.
-    rewrite app_assoc in Hin. rewrite (proj1 (single_tag_end _)), (proj2 (single_tag_end _)) in Hin.
+    rewrite app_assoc in Hin. rewrite single_tag_end in Hin.
     rewrite <- app_assoc in Hin. fold (dump (k_cfg k) st) in Hin.
     unfold check_run in Hin. rewrite X in Hin.
     destruct (dump_sim (k_cfg k) st x RR) as [ks [H1 [F1 _]]].
     pose proof (eats_eat _ _ _ H1 [] []) as EE. rewrite app_nil_r in EE. rewrite EE in Hin. cbn [app] in Hin.
-    unfold is_known. unfold all_f15 in F1. rewrite Forall_forall in F1. rewrite (F1 t Hin). reflexivity.
-  - unfold check_case in Hin. cbn [single_tag is_tag] in Hin. cbn in Hin.
-    rewrite (run_crash _ _ _ E) in Hin. cbn in Hin. destruct Hin as [Hin|[]]. subst t. reflexivity.
+    unfold is_known. unfold all_f15 in F1. rewrite Forall_forall in F1. exact (F1 t Hin).
   - cbn in Hin. contradiction.
 Qed.
 
@@ -208,16 +166,15 @@ Proof.
 Qed.
 
 Theorem model_meets_spec_strict : forall k,
-  existsb has_nameless (k_ops k) = false ->
   forallb (fun o => negb (is_mut o)) (k_ops k) = true ->
   check_case k (run_case k) = [].
 Proof.
-  intros k NN NM. unfold run_case.
+  intros k NM. unfold run_case.
   destruct (negb (mem_ok (k_mem k))); [reflexivity|].
-  destruct (lrun (k_cfg k) (lstate0 (k_mem k) (k_procs k)) (k_ops k)) as [st| |] eqn:E.
+  destruct (lrun (k_cfg k) (lstate0 (k_mem k) (k_procs k)) (k_ops k)) as [st|] eqn:E.
   - destruct (run_sim _ _ _ _ _ (R_init (k_mem k) (k_procs k)) E) as [d [x [O [X RR]]]].
     cbn [lstate0 s_out app] in O. rewrite O.
-    unfold check_case, dump. rewrite app_assoc, (proj1 (single_tag_end _)), (proj2 (single_tag_end _)).
+    unfold check_case, dump. rewrite app_assoc, single_tag_end.
     rewrite <- app_assoc. fold (dump (k_cfg k) st).
     unfold check_run. rewrite X.
     destruct (dump_sim (k_cfg k) st x RR) as [ks [H1 [_ Q1]]].
@@ -226,15 +183,13 @@ Proof.
     assert (MF : mem_fixed x).
     { eapply check_ops_fixed; [exact NM | | apply (X [] [])]. constructor. }
     eapply Forall_impl; [|exact MF]. intros pe Em v. cbn beta in Em. rewrite Em. reflexivity.
-  - apply run_crash in E. rewrite E in NN. discriminate.
   - reflexivity.
 Qed.
 
 (* ------------------------------------------------------------------ on the wire *)
 Theorem model_meets_spec_wire : forall l k, parse_case l = Some k ->
   (forall t, In t (run_spec l (run_model l)) -> is_known t = true) /\
-  (existsb has_nameless (k_ops k) = false -> forallb (fun o => negb (is_mut o)) (k_ops k) = true ->
-   run_spec l (run_model l) = []).
+  (forallb (fun o => negb (is_mut o)) (k_ops k) = true -> run_spec l (run_model l) = []).
 Proof.
   intros l k P. unfold run_spec, run_model. rewrite P. split.
   - apply model_meets_spec_modulo_known.
